@@ -732,3 +732,193 @@ Lemma fd_extract_refuted :
   modelled (w ["fd"; "-x"; "ls"; ";"; "-x"; "rm"]) = Some (HWords [w ["ls"; ";"; "-x"; "rm"]] false) /\
   wrapper_exec (w ["fd"; "-x"; "ls"; ";"; "-x"; "rm"]) = Some [w ["ls"]; w ["rm"]].
 Proof. vm_compute. split; reflexivity. Qed.
+
+(* ================================================================== env: option spellings *)
+Definition ENV_BOOL_WORDS : list str :=
+  map s2l ["-i"; "-v"; "-iv"; "-vi"; "-ivv"; "--ignore-environment"; "--debug"; "--list-signal-handling";
+           "--block-signal"; "--default-signal"; "--ignore-signal"; "--ignore-env"; "--deb"; "--list"].
+Definition ENV_SEP_FLAGS : list str := map s2l ["-u"; "--unset"; "-C"; "--chdir"].
+Definition ENV_UNSET_EQ : list str := map s2l ["--unset="; "--uns="].
+Definition ENV_CHDIR_EQ : list str := map s2l ["--chdir="; "--ch="].
+Definition name_ok (n : str) : bool := nonempty n && negb (mem_ch 61 n).
+
+(* env_opts ws unset : ws is a sequence of option words, unset collects the names given to -u/--unset *)
+Inductive env_opts : list str -> Prop :=
+| eo_nil : env_opts []
+| eo_bool b r : In b ENV_BOOL_WORDS -> env_opts r -> env_opts (b :: r)
+| eo_unset f v r : In f [s2l "-u"; s2l "--unset"] -> name_ok v = true -> env_opts r -> env_opts (f :: v :: r)
+| eo_chdir f v r : In f [s2l "-C"; s2l "--chdir"] -> env_opts r -> env_opts (f :: v :: r)
+| eo_unset_eq p v r : In p ENV_UNSET_EQ -> name_ok v = true -> env_opts r -> env_opts ((p ++ v) :: r)
+| eo_chdir_eq p v r : In p ENV_CHDIR_EQ -> env_opts r -> env_opts ((p ++ v) :: r)
+| eo_unset_att v r : name_ok v = true -> env_opts r -> env_opts ((s2l "-u" ++ v) :: r)
+| eo_chdir_att v r : v <> [] -> env_opts r -> env_opts ((s2l "-C" ++ v) :: r).
+
+(* ---- handler side *)
+Lemma env_scan_skip1 t r :
+  is "--" t = false -> mem_str t ENV_SPLIT_FLAGS = false -> prefixb SPLIT_EQ t = false ->
+  starts "-S" t = false -> mem_str t ENV_FLAGS_WITH_ARG = false -> dash t = true ->
+  env_scan (t :: r) = env_scan r.
+Proof. intros A B C D E F. cbn [env_scan]. rewrite A, B, C, D, E, F. reflexivity. Qed.
+
+Lemma env_bool_facts : forallb (fun t => negb (is "--" t) && negb (mem_str t ENV_SPLIT_FLAGS) && negb (prefixb SPLIT_EQ t)
+  && negb (starts "-S" t) && negb (mem_str t ENV_FLAGS_WITH_ARG) && dash t) ENV_BOOL_WORDS = true.
+Proof. vm_compute. reflexivity. Qed.
+Lemma env_sep_facts : forallb (fun t => negb (is "--" t) && negb (mem_str t ENV_SPLIT_FLAGS) && negb (prefixb SPLIT_EQ t)
+  && negb (starts "-S" t && Nat.ltb 2 (length t)) && mem_str t ENV_FLAGS_WITH_ARG) ENV_SEP_FLAGS = true.
+Proof. vm_compute. reflexivity. Qed.
+Lemma env_table_no_eq : forallb (fun e => negb (has_eq e)) ENV_FLAGS_WITH_ARG = true /\ forallb (fun e => negb (has_eq e)) ENV_SPLIT_FLAGS = true.
+Proof. split; vm_compute; reflexivity. Qed.
+Lemma env_att_facts : forallb (fun p => forallb (fun e => negb (prefixb p e) || str_eqb e p) ENV_FLAGS_WITH_ARG
+                                       && forallb (fun e => negb (prefixb p e) || str_eqb e p) ENV_SPLIT_FLAGS) [s2l "-u"; s2l "-C"] = true.
+Proof. vm_compute. reflexivity. Qed.
+
+Lemma env_scan_eq_word p v r :
+  In p (ENV_UNSET_EQ ++ ENV_CHDIR_EQ) -> env_scan ((p ++ v) :: r) = env_scan r.
+Proof.
+  intro Hp. apply env_scan_skip1.
+  - apply is_ddash_long. rewrite app_length.
+    assert (F : forallb (fun p => Nat.ltb 2 (length p)) (ENV_UNSET_EQ ++ ENV_CHDIR_EQ) = true) by (vm_compute; reflexivity).
+    pose proof (proj1 (forallb_forall _ _) F p Hp) as E. cbv beta in E. apply Nat.ltb_lt in E. lia.
+  - apply mem_str_false_of_eq; [|exact (proj2 env_table_no_eq)]. apply has_eq_app_l.
+    assert (F : forallb has_eq (ENV_UNSET_EQ ++ ENV_CHDIR_EQ) = true) by (vm_compute; reflexivity).
+    exact (proj1 (forallb_forall _ _) F p Hp).
+  - repeat (destruct Hp as [<-|Hp]; [reflexivity|]). destruct Hp.
+  - repeat (destruct Hp as [<-|Hp]; [reflexivity|]). destruct Hp.
+  - apply mem_str_false_of_eq; [|exact (proj1 env_table_no_eq)]. apply has_eq_app_l.
+    assert (F : forallb has_eq (ENV_UNSET_EQ ++ ENV_CHDIR_EQ) = true) by (vm_compute; reflexivity).
+    exact (proj1 (forallb_forall _ _) F p Hp).
+  - apply dash_app. repeat (destruct Hp as [<-|Hp]; [reflexivity|]). destruct Hp.
+Qed.
+
+Lemma env_scan_att_word p v r :
+  In p [s2l "-u"; s2l "-C"] -> v <> [] -> env_scan ((p ++ v) :: r) = env_scan r.
+Proof.
+  intros Hp Hv.
+  pose proof (proj1 (forallb_forall _ _) env_att_facts p Hp) as F. cbv beta in F. apply andb_true_iff in F as [F1 F2].
+  apply env_scan_skip1.
+  - apply is_ddash_long. rewrite app_length. destruct v; [congruence|].
+    destruct Hp as [<-|[<-|[]]]; cbn; lia.
+  - apply mem_str_no_extension; assumption.
+  - destruct Hp as [<-|[<-|[]]]; reflexivity.
+  - destruct Hp as [<-|[<-|[]]]; reflexivity.
+  - apply mem_str_no_extension; assumption.
+  - apply dash_app. destruct Hp as [<-|[<-|[]]]; reflexivity.
+Qed.
+
+Lemma env_opts_handler opts : env_opts opts -> forall l, env_scan (opts ++ l) = env_scan l.
+Proof.
+  induction 1 as [|b r Hb _ IH|f v r Hf Hv _ IH|f v r Hf _ IH|p v r Hp Hv _ IH|p v r Hp _ IH|v r Hv _ IH|v r Hv _ IH]; intro l.
+  - reflexivity.
+  - pose proof (proj1 (forallb_forall _ _) env_bool_facts b Hb) as F. cbv beta in F.
+    rewrite !andb_true_iff, !negb_true_iff in F. destruct F as [[[[[F1 F2] F3] F4] F5] F6].
+    cbn [app]. rewrite env_scan_skip1 by assumption. apply IH.
+  - assert (Hf' : In f ENV_SEP_FLAGS) by (destruct Hf as [<-|[<-|[]]]; cbn; tauto).
+    pose proof (proj1 (forallb_forall _ _) env_sep_facts f Hf') as F. cbv beta in F.
+    rewrite !andb_true_iff, !negb_true_iff in F. destruct F as [[[[F1 F2] F3] F4] F5].
+    cbn [app env_scan]. rewrite F1, F2, F3, F4, F5. cbn [andb]. apply IH.
+  - assert (Hf' : In f ENV_SEP_FLAGS) by (destruct Hf as [<-|[<-|[]]]; cbn; tauto).
+    pose proof (proj1 (forallb_forall _ _) env_sep_facts f Hf') as F. cbv beta in F.
+    rewrite !andb_true_iff, !negb_true_iff in F. destruct F as [[[[F1 F2] F3] F4] F5].
+    cbn [app env_scan]. rewrite F1, F2, F3, F4, F5. cbn [andb]. apply IH.
+  - cbn [app]. rewrite env_scan_eq_word by (apply in_or_app; auto). apply IH.
+  - cbn [app]. rewrite env_scan_eq_word by (apply in_or_app; auto). apply IH.
+  - cbn [app]. rewrite env_scan_att_word; [apply IH|cbn; tauto|].
+    unfold name_ok in Hv. destruct v; [discriminate|discriminate].
+  - cbn [app]. rewrite env_scan_att_word; [apply IH|cbn; tauto|exact Hv].
+Qed.
+
+(* ---- specification side *)
+Definition okO (o : list gopt) : Prop :=
+  help_or_version o = false /\ env_opts_ok o = true /\ has_short (c1 "0") o = false /\ has_long (S "null") o = false.
+
+Lemma okO_nil : okO [].
+Proof. repeat split. Qed.
+
+Lemma okO_app a b : okO a -> okO b -> okO (a ++ b).
+Proof.
+  unfold okO, help_or_version, env_opts_ok, has_long, has_short, short_args, long_args.
+  intros (A1 & A2 & A3 & A4) (B1 & B2 & B3 & B4).
+  rewrite !existsb_app, !flat_map_app in *.
+  apply orb_false_iff in A1 as [A1 A1']. apply orb_false_iff in B1 as [B1 B1'].
+  apply andb_true_iff in A2 as [A2 A2']. apply andb_true_iff in B2 as [B2 B2'].
+  rewrite !forallb_app in *. apply andb_true_iff in A2 as [A2a A2b]. apply andb_true_iff in B2 as [B2a B2b].
+  apply andb_true_iff in A2' as [A2c A2d]. apply andb_true_iff in A2d as [A2d A2e].
+  apply andb_true_iff in B2' as [B2c B2d]. apply andb_true_iff in B2d as [B2d B2e].
+  rewrite A1, A1', B1, B1', A3, A4, B3, B4, A2a, A2b, B2a, B2b, A2c, A2d, A2e, B2c, B2d, B2e. repeat split.
+Qed.
+
+Notation gx := (getopt_x (fun _ => false) env_is_S env_spec).
+
+Lemma gcons_assoc a b k : gcons a (gcons b k) = gcons (a ++ b) k.
+Proof. destruct k; cbn [gcons]; rewrite ?app_assoc; reflexivity. Qed.
+
+Lemma okO_unset_s v : name_ok v = true -> okO [GS (c1 "u") (Some v)].
+Proof. intro H. unfold okO, name_ok in *. repeat split. unfold env_opts_ok. cbn. rewrite H. reflexivity. Qed.
+Lemma okO_unset_l v : name_ok v = true -> okO [GL (S "unset") (Some v)].
+Proof. intro H. unfold okO, name_ok in *. repeat split. unfold env_opts_ok. cbn. rewrite H. reflexivity. Qed.
+Lemma okO_chdir_s v : okO [GS (c1 "C") (Some v)].
+Proof. repeat split. Qed.
+Lemma okO_chdir_l v : okO [GL (S "chdir") (Some v)].
+Proof. repeat split. Qed.
+
+Lemma env_opts_spec opts : env_opts opts -> forall l, exists o, okO o /\ gx (opts ++ l) = gcons o (gx l).
+Proof.
+  induction 1 as [|b r Hb _ IH|f v r Hf Hv _ IH|f v r Hf _ IH|p v r Hp Hv _ IH|p v r Hp _ IH|v r Hv _ IH|v r Hv _ IH]; intro l.
+  - exists []. split; [exact okO_nil|]. cbn [app]. destruct (gx l); reflexivity.
+  - destruct (IH l) as (o & Ho & E). cbn [app].
+    assert (X : exists o1, okO o1 /\ forall rest, gx (b :: rest) = gcons o1 (gx rest)).
+    { repeat (destruct Hb as [<-|Hb]; [eexists; split; [|intro rest; reflexivity]; repeat split|]). destruct Hb. }
+    destruct X as (o1 & Ho1 & E1). exists (o1 ++ o). split; [apply okO_app; assumption|].
+    rewrite E1, E, gcons_assoc. reflexivity.
+  - destruct (IH l) as (o & Ho & E). cbn [app]. destruct Hf as [<-|[<-|[]]].
+    + exists ([GS (c1 "u") (Some v)] ++ o). split; [apply okO_app; [apply okO_unset_s, Hv|exact Ho]|].
+      rewrite <- gcons_assoc, <- E. reflexivity.
+    + exists ([GL (S "unset") (Some v)] ++ o). split; [apply okO_app; [apply okO_unset_l, Hv|exact Ho]|].
+      rewrite <- gcons_assoc, <- E. reflexivity.
+  - destruct (IH l) as (o & Ho & E). cbn [app]. destruct Hf as [<-|[<-|[]]].
+    + exists ([GS (c1 "C") (Some v)] ++ o). split; [apply okO_app; [apply okO_chdir_s|exact Ho]|].
+      rewrite <- gcons_assoc, <- E. reflexivity.
+    + exists ([GL (S "chdir") (Some v)] ++ o). split; [apply okO_app; [apply okO_chdir_l|exact Ho]|].
+      rewrite <- gcons_assoc, <- E. reflexivity.
+  - destruct (IH l) as (o & Ho & E). cbn [app].
+    exists ([GL (S "unset") (Some v)] ++ o). split; [apply okO_app; [apply okO_unset_l, Hv|exact Ho]|].
+    rewrite <- gcons_assoc, <- E. repeat (destruct Hp as [<-|Hp]; [reflexivity|]). destruct Hp.
+  - destruct (IH l) as (o & Ho & E). cbn [app].
+    exists ([GL (S "chdir") (Some v)] ++ o). split; [apply okO_app; [apply okO_chdir_l|exact Ho]|].
+    rewrite <- gcons_assoc, <- E. repeat (destruct Hp as [<-|Hp]; [reflexivity|]). destruct Hp.
+  - destruct (IH l) as (o & Ho & E). cbn [app].
+    exists ([GS (c1 "u") (Some v)] ++ o). split; [apply okO_app; [apply okO_unset_s, Hv|exact Ho]|].
+    rewrite <- gcons_assoc, <- E. destruct v; [discriminate|reflexivity].
+  - destruct (IH l) as (o & Ho & E). cbn [app].
+    exists ([GS (c1 "C") (Some v)] ++ o). split; [apply okO_app; [apply okO_chdir_s|exact Ho]|].
+    rewrite <- gcons_assoc, <- E. destruct v; [congruence|reflexivity].
+Qed.
+
+(* env OPTION... [NAME=VALUE]... COMMAND ARG... for all option spellings of env_opts *)
+Lemma env_extract_opts opts assigns c0 cs :
+  env_opts opts -> forallb assign_word assigns = true -> dash c0 = false -> has_eq c0 = false ->
+  env_h (s2l "env" :: opts ++ assigns ++ c0 :: cs) = HWords [c0 :: cs] false /\
+  env_exec (opts ++ assigns ++ c0 :: cs) = Some [c0 :: cs].
+Proof.
+  intros Ho Ha Hd He. split.
+  - unfold env_h. cbn [tl']. rewrite (env_opts_handler opts Ho).
+    exact (proj1 (env_extract assigns c0 cs Ha Hd He)).
+  - destruct (env_opts_spec opts Ho (assigns ++ c0 :: cs)) as (o & (O1 & O2 & O3 & O4) & E).
+    unfold env_exec. cbn [env_exec_f]. rewrite E.
+    assert (G : gx (assigns ++ c0 :: cs) = GOk [] (assigns ++ c0 :: cs)).
+    { destruct assigns as [|a r].
+      - cbn [app getopt_x]. rewrite (word_kind_operand c0 Hd). reflexivity.
+      - cbn [forallb] in Ha. apply andb_true_iff in Ha as [Ha _]. unfold assign_word in Ha.
+        apply andb_true_iff in Ha as [_ Ha]. apply negb_true_iff in Ha.
+        cbn [app getopt_x]. rewrite (word_kind_operand a Ha). reflexivity. }
+    rewrite G. cbn [gcons]. rewrite app_nil_r, O1, O2. cbn [negb].
+    assert (F : (match assigns ++ c0 :: cs with w0 :: r => if str_eqb w0 [45] then r else assigns ++ c0 :: cs | [] => [] end)
+                = assigns ++ c0 :: cs).
+    { destruct assigns as [|a r].
+      - cbn [app]. rewrite (dash_false_not_dashword c0 Hd). reflexivity.
+      - cbn [forallb] in Ha. apply andb_true_iff in Ha as [Ha _]. unfold assign_word in Ha.
+        apply andb_true_iff in Ha as [_ Ha]. apply negb_true_iff in Ha.
+        cbn [app]. rewrite (dash_false_not_dashword a Ha). reflexivity. }
+    rewrite F. rewrite drop_assign_app by exact Ha. cbn [drop_assign]. unfold has_eq in He. rewrite He.
+    rewrite O3, O4. reflexivity.
+Qed.
